@@ -22,3 +22,4 @@ pub mod c16;
 pub mod c19;
 pub mod c03;
 pub mod c05;
+pub mod c01;
